@@ -82,11 +82,18 @@ def label(ltype, code):
         return 0.5 * code - 1.0
     if ltype == "interval":      # overlapping intervals, as in the Haigh diagrams of meanstress.py
         return pd.Interval(0.5 * code, 0.5 * code + 1.0)
+    if ltype == "obj":           # strings in a level of dtype object (pandas < 3, HDF, dtype=object; see level_labels)
+        return f"k{code}"
+    if ltype == "mixed":         # labels of mixed type in one (object) level
+        return MIXED_LABELS[int(code) % len(MIXED_LABELS)]
     if ltype == "dt":
         return pd.Timestamp("2020-01-01") + pd.Timedelta(days=int(code))
     if ltype == "cat":           # (the level is built as a Categorical, see level_labels)
         return f"k{code}"
     raise ValueError(ltype)
+
+
+MIXED_LABELS = [1.5, "weld", 2.5, "toe", 7.5, "root", 0.25, "cap"]      # (floats and strings in one object level)
 
 
 def anon_label(side, pos, code, plain=False):
@@ -128,11 +135,28 @@ def plain_value(case, v):
 
 
 def same_value(a, b):
+    if isinstance(a, str) or isinstance(b, str):
+        return isinstance(a, str) and isinstance(b, str) and a == b
     try:
         a, b = float(a), float(b)
     except Exception:
         return False
     return a == b or (a != a and b != b)
+
+
+REC_STRING = "steel"
+
+
+def record_entries(case, vals):
+    """entries of a record that is not purely numeric: "rec_str": the LAST entry is a string (a material name beside the
+    numbers), "rec_0d": every other numeric entry is a 0-d numpy array (what WoehlerCurve.transform_to_failure_probability
+    writes into a curve: np.asarray(obj.SD / ...))"""
+    out = list(vals)
+    if case.get("rec_0d"):
+        out = [np.asarray(v) if i % 2 == 0 else v for i, v in enumerate(out)]
+    if case.get("rec_str"):
+        out[-1] = REC_STRING
+    return out
 
 
 NAME_TYPES = {        # symbolic level name -> the real pandas level name
@@ -197,6 +221,8 @@ def level_labels(case, side, op, pos):
     labs = [label(lt, k[pos]) for k in op["keys"]]
     if lt == "cat":
         return pd.Categorical(labs, categories=[f"k{c}" for c in range(8)])
+    if lt in ("obj", "mixed"):
+        return pd.Index(labs, dtype=object, tupleize_cols=False)
     return labs
 
 
@@ -234,7 +260,10 @@ def build(case, side, index=None):
         idx = pd.MultiIndex.from_arrays(arrays, names=rnames)
     ncols = op["ncols"]
     if kind == "series":
-        return pd.Series([cell_value(case, side, i, 0, ncols, n) for i in range(n)], index=idx, name=f"{side}v")
+        vals = [cell_value(case, side, i, 0, ncols, n) for i in range(n)]
+        if side == "o" and is_record(case) and (case.get("rec_str") or case.get("rec_0d")):
+            return pd.Series(record_entries(case, vals), index=idx, name=f"{side}v", dtype=object if case.get("rec_str") else None)
+        return pd.Series(vals, index=idx, name=f"{side}v")
     data = {f"{side}c{j}": [cell_value(case, side, i, j, ncols, n) for i in range(n)] for j in range(ncols)}
     return pd.DataFrame(data, index=idx)
 
@@ -418,8 +447,10 @@ def decode_level(case, name, values, anon_side_pos=None):
                     c = repr(v)
             elif lt == "rev":
                 c = 9 - int(v)
-            elif lt in ("str", "cat"):
+            elif lt in ("str", "cat", "obj"):
                 c = int(str(v)[1:])
+            elif lt == "mixed":
+                c = [i for i, m in enumerate(MIXED_LABELS) if isinstance(m, str) == isinstance(v, str) and m == v][0]
             elif lt == "dt":
                 c = (pd.Timestamp(v) - pd.Timestamp("2020-01-01")).days
             elif lt == "interval":
@@ -465,7 +496,10 @@ def decode_index(case, index):
 
 
 def rows_of(x):
-    a = np.asarray(x, dtype=float)
+    try:
+        a = np.asarray(x, dtype=float)
+    except (ValueError, TypeError):       # a record with a string entry
+        a = np.asarray(x, dtype=object)
     if a.ndim == 1:
         a = a.reshape(-1, 1)
     return [list(r) for r in a]
@@ -508,7 +542,8 @@ def value_rows(case, side):
     if side == "o":
         if is_record(case):
             n = len(op["keys"])
-            return {frozenset(): [cell_value(case, "o", i, 0, 1, n) for i in range(n)]}
+            vals = [cell_value(case, "o", i, 0, 1, n) for i in range(n)]
+            return {frozenset(): record_entries(case, vals) if (case.get("rec_str") or case.get("rec_0d")) else vals}
         nc = 1 if op["kind"] == "series" else op["ncols"]
         n = len(op["keys"])
         return {frozenset(zip(on, k)): [cell_value(case, "o", i, j, op["ncols"], n) for j in range(nc)]
@@ -524,13 +559,13 @@ def to_ids(values, id_row, value_row):
     """A returned row as cell IDS: where a returned value is the original's value (bit pattern, NaN = NaN) the
     original's id, any other value as it is (it then disagrees with the model and the reference)."""
     if value_row is None or len(value_row) != len(values):
-        return None if all(v != v for v in values) else [raw(v) for v in values]
+        return None if all(not isinstance(v, str) and v != v for v in values) else [raw(v) for v in values]
     return [i if same_value(v, w) else raw(v) for v, i, w in zip(values, id_row, value_row)]
 
 
 def raw(v):
     """a returned value that is not the original's: shown as it is, and never mistaken for a cell id"""
-    return "nan" if v != v else f"~{v!r}"
+    return "nan" if (not isinstance(v, str) and v != v) else f"~{v!r}"
 
 
 def plain_id(case, v):
@@ -551,7 +586,7 @@ def canon_result(case, r):
     (on, orows), prm = tables(case)
     if isinstance(o, pd.Series) and rec:
         # the record came back as a Series: one row, no level
-        okeys, orow = [frozenset()], [list(np.asarray(o, dtype=float))]
+        okeys, orow = [frozenset()], [[x for row in rows_of(o) for x in row]]
     elif isinstance(o, (pd.Series, pd.DataFrame)):
         if case["prm"]["kind"] == "array" and rec:
             okeys = [frozenset([("?p0", int(i))]) for i in o.index]
@@ -606,12 +641,87 @@ def unsorted_levels(x):
         return None
     for name, lvl in zip(idx.names, idx.levels):
         try:
+            if lvl.dtype == object and len({isinstance(v, str) for v in lvl}) > 1:
+                continue        # labels of mixed type have no order
             ok = bool(lvl.is_monotonic_increasing)
         except Exception:
             continue
         if not ok and len(lvl) > 1:
             return (f"level {name!r} of the returned MultiIndex is held unsorted: {list(lvl)[:5]} (pandas keeps levels sorted and "
                     "derives the sortedness of an index from its codes)")
+    return None
+
+
+def level_by_position(idx, pos):
+    """(the level's values without repetition, does some row hold no value) - by POSITION: get_level_values(0) would return
+    the level NAMED 0 if there is one"""
+    if isinstance(idx, pd.MultiIndex):
+        return idx.levels[pos], bool((np.asarray(idx.codes[pos]) == -1).any())
+    return idx, bool(idx.hasnans)
+
+
+def expected_level_dtype(case, r, sym, has_nan):
+    """The dtype a result level must have: that of the operand level it comes from; for a level both operands have, the
+    dtype pandas gives the two operand levels put together (`Index.append`: two object levels that hold only strings become
+    `str` under pandas 3, mixed labels stay object).  A level in which some result row has no value holds NaN: integers
+    are then floats.  None: no demand (empty operand)."""
+    src = []
+    for op, x in ((case["obj"], r.obj0), (case["prm"], r.prm0)):
+        if sym in op["names"] and len(x) > 0:
+            src.append(level_by_position(x.index, op["names"].index(sym))[0])
+        elif sym in op["names"]:
+            return None
+    if not src:
+        return None
+    dt = src[0].dtype if len(src) == 1 else src[0].append(src[1]).dtype
+    if getattr(dt, "kind", "") in "iu" and has_nan:
+        return np.dtype("float64")
+    if getattr(dt, "kind", "") == "b" and has_nan:
+        return np.dtype("object")
+    return dt
+
+
+def level_dtype_failure(case, r):
+    """a description if a level of a returned index does not have the dtype of the operand level it comes from"""
+    for which, x in (("object", r.res_obj), ("parameter", r.res_prm)):
+        idx = getattr(x, "index", None)
+        if idx is None:
+            continue
+        for pos, name in enumerate(idx.names):
+            if name is None:
+                continue
+            lvl, has_nan = level_by_position(idx, pos)
+            got = np.dtype("float64") if (getattr(lvl.dtype, "kind", "") in "iu" and has_nan) else lvl.dtype
+            want = expected_level_dtype(case, r, sym_name(case, name), has_nan)
+            if want is not None and got != want:
+                d = (f"level {name!r} of the returned {which} has dtype {got}; the operand level(s) it comes from give "
+                     f"{want} (labels {list(lvl[:3])})")
+                # (eb02d01: where a result row has no value in the level, the level is rebuilt with pd.Index(filled values),
+                #  which infers `str` for an object level of strings)
+                narrow = want == np.dtype("object") and str(got) == "str" and has_nan
+                return d + ("; some rows have no value in this level" if narrow else ""), \
+                    ("level-dtype-object-with-missing-rows" if narrow else "level-dtype")
+    return None
+
+
+def record_entry_failure(case, r):
+    """a record comes back as a frame with one column per entry that holds the ENTRY: a number as a numeric column (as for
+    an all-numeric record: no object column, no 0-d arrays as cells), a string as that string"""
+    o = r.res_obj
+    if not (is_record(case) and isinstance(o, pd.DataFrame)):
+        return None
+    entries = list(r.obj0.array) if hasattr(r.obj0, "array") else list(r.obj0)
+    if o.shape[1] != len(entries):
+        return None
+    for j, e in enumerate(entries):
+        col = o.iloc[:, j]
+        if isinstance(e, str):
+            if not all(isinstance(v, str) and v == e for v in col):
+                return f"the entry {r.obj0.index[j]!r} = {e!r} came back as {list(col)[:2]}"
+            continue
+        if col.dtype.kind not in "fiu":
+            return (f"the numeric entry {r.obj0.index[j]!r} = {e!r} ({type(e).__name__}) came back as a column of dtype {col.dtype} "
+                    f"holding {[type(v).__name__ for v in col[:2]]}: {list(col)[:2]}")
     return None
 
 
@@ -675,7 +785,7 @@ def spec_tokens(case):
 
 # ------------------------------------------------------------------ generators
 NAMES = ["x", "y", "z", "w", "u"]
-LTYPES = ["int", "int", "rev", "str", "float", "interval", "dt", "cat"]
+LTYPES = ["int", "int", "rev", "str", "float", "interval", "dt", "cat", "obj", "mixed"]
 
 
 def gen_names(rng, lay):
@@ -799,7 +909,7 @@ def gen_table_case(rng, lay=None, present=None, size=None):
     ok, pk = gen_keys(rng, on, pn, present, size)
     okind = rng.choice(["series", "frame"])
     pkind = rng.choice(["series", "frame"])
-    labels = {n: rng.choice(LTYPES) for n in set(on) | set(pn) if n is not None}
+    labels = {n: rng.choice(LTYPES) for n in sorted(n for n in set(on) | set(pn) if n is not None)}      # (sorted: same cases for a seed in every process)
     case = {"obj": {"kind": okind, "names": on, "keys": ok, "ncols": 1 if okind == "series" else rng.randint(1, 3)},
             "prm": {"kind": pkind, "names": pn, "keys": pk, "ncols": 1 if pkind == "series" else rng.randint(1, 2)},
             "labels": labels}
@@ -864,6 +974,10 @@ def gen_nonpandas_case(rng):
         case = {"obj": obj, "labels": labels, "cells": cells, "rec_labels": rng.choice(["str", "str", "int", "float", "tuple"])}
         if n > 1 and rng.random() < 0.15:
             case["rec_dup"] = True
+        if n > 1 and rng.random() < 0.3:       # a name beside the numbers; 0-d arrays as written by the Woehler accessor
+            case["rec_str"] = True
+            if rng.random() < 0.6:
+                case["rec_0d"] = True
         if rng.random() < 0.4:
             case["prm"] = gen_scalar(rng)
         else:
@@ -1079,7 +1193,11 @@ def record_dup_defect(case, r):
     if not (case.get("rec_dup") and is_record(case) and case["prm"]["kind"] == "array") or r.error:
         return False
     o = r.res_obj
-    vals = list(np.asarray(r.obj0, dtype=float))
+    try:
+        vals = list(np.asarray(r.obj0, dtype=float))
+        np.asarray(o, dtype=float)
+    except (ValueError, TypeError):       # a record with a string entry: judged by the other clauses
+        return False
     if isinstance(o, pd.DataFrame) and o.shape[1] > len(vals) and isinstance(r.obj0.index[0], tuple) and \
             set(o.columns) == set(r.obj0.index) and sum(1 for c in o.columns if c != r.obj0.index[0]) == len(vals) - 2:
         return True         # (tuple labels: the assignment to the duplicated label adds further columns of that label)
@@ -1117,6 +1235,14 @@ def int_name_not_first(case):
     return False
 
 
+def same_data(before, after):
+    try:
+        return bool(np.array_equal(np.asarray(before, dtype=float), np.asarray(after, dtype=float), equal_nan=True))
+    except (ValueError, TypeError):       # entries that are not numbers (a record with a name): element by element, types included
+        b, a = np.asarray(before, dtype=object).ravel(), np.asarray(after, dtype=object).ravel()
+        return len(a) == len(b) and all(type(x) is type(y) and same_value(x, y) for x, y in zip(b, a))
+
+
 def unchanged(before, after):
     """values, index (labels, order) and level names of an operand are what they were"""
     if isinstance(before, (pd.Series, pd.DataFrame)):
@@ -1128,7 +1254,7 @@ def unchanged(before, after):
             return "index"
         if isinstance(before, pd.DataFrame) and list(before.columns) != list(after.columns):
             return "columns"
-        if not np.array_equal(np.asarray(before, dtype=float), np.asarray(after, dtype=float), equal_nan=True):
+        if not same_data(before, after):
             return "values"
         if isinstance(before, pd.DataFrame) and list(before.dtypes) != list(after.dtypes) or \
                 isinstance(before, pd.Series) and before.dtype != after.dtype:
@@ -1148,7 +1274,7 @@ def woehler_case(rng):
             "k2": rng.choice(["none", "inf", "value"]), "shuffle": rng.random() < 0.5,
             "op": rng.choice(["cycles", "cycles", "load"]), "pf": rng.choice([0.5, 0.1, 0.9, 0.025]),
             "scatter": rng.choice(["none", "TN", "TS", "both", "TN"]),
-            "elem_name": rng.choice(["str", "str", "zero", "empty", "tuple"])}
+            "elem_name": rng.choice(["str", "str", "zero", "empty", "tuple"]), "name_entry": rng.random() < 0.35}
 
 
 COLLECTIVE_RAISE_VARIANTS = [
@@ -1482,6 +1608,46 @@ def matrix_oracle(case):
     return None
 
 
+def perf_oracle(case, stats):
+    """Performance guard (one case per run): a cross-join broadcast of n rows against m parameter rows must not take longer
+    than `bound` x a plain pandas cross join of the same size, measured in the same run.  The reference is measured before and
+    after; when the two differ much or are slow the machine is busy and nothing is judged."""
+    import time
+    from pylife.core.broadcaster import Broadcaster
+    n, m, bound = case["n"], case["m"], case["bound"]
+    obj = pd.Series(np.arange(n, dtype=float), index=pd.Index(np.arange(n)[::-1] * 3, name="node_id"))
+    prm = pd.Series(np.arange(m, dtype=float) + 0.5, index=pd.Index(np.arange(m) * 7, name="load_class"))
+
+    def ref():
+        t = time.perf_counter()
+        idx = pd.MultiIndex.from_frame(obj.index.to_frame(index=False).merge(prm.index.to_frame(index=False), how="cross"))
+        pd.Series(np.repeat(obj.to_numpy(), m), index=idx), pd.Series(np.tile(prm.to_numpy(), n), index=idx)
+        return time.perf_counter() - t
+
+    def run():
+        t = time.perf_counter()
+        with warnings.catch_warnings():
+            warnings.simplefilter("ignore")
+            Broadcaster(obj).broadcast(prm)
+        return time.perf_counter() - t
+    ref()                                    # warm-up
+    r1 = ref()
+    if r1 > case.get("too_slow", 8.0):
+        stats["perf_guard"] = {"skipped": f"reference took {r1:.2f} s: machine busy"}
+        return None
+    b = min(run(), run())
+    r2 = ref()
+    stats["perf_guard"] = {"rows": [n, m], "reference_s": [round(r1, 3), round(r2, 3)], "broadcast_s": round(b, 3),
+                           "ratio": round(b / max(r1, r2), 2), "bound": bound}
+    if max(r1, r2) > 1.6 * min(r1, r2):
+        stats["perf_guard"]["skipped"] = "the two reference measurements differ by more than 1.6x: machine busy"
+        return None
+    if b > bound * max(r1, r2):
+        return (f"Broadcaster of {n} rows x {m} parameter rows (no shared level) took {b:.2f} s, a plain pandas cross join of the same "
+                f"size {r1:.2f} / {r2:.2f} s: more than {bound}x", "broadcast-slow")
+    return None
+
+
 def haigh_five_oracle(case):
     """meanstress.py HaighDiagram.five_segment of a frame (one row of M0..M4, R12, R23 per element; the element rows are
     broadcast to the (element, R) rows): every element's five slopes sit on that element's five intervals."""
@@ -1641,10 +1807,13 @@ def _woehler_oracle(case):
 
     def scalar_result(c, ld, pfv=None):
         try:
-            return float(np.asarray(call(pd.Series(dict(c)).woehler, ld, pf if pfv is None else pfv)))
+            return float(np.asarray(call(pd.Series({k: v for k, v in c.items() if k != "name"}).woehler, ld, pf if pfv is None else pfv)))
         except Exception as e:
             raise ScalarPathError(f"{type(e).__name__}: {str(e)[:100]}")
 
+    if case.get("name_entry"):
+        for i, c in enumerate(curves):       # a label beside the numbers (the scalar reference below is computed without it)
+            c["name"] = "steel" if i % 2 == 0 else "alu"
     what = f"woehler.{op}"
     scen = list(range(ns))
     if case["shuffle"] and not lay.startswith("record-a") and lay != "record-scalar":
@@ -1723,6 +1892,11 @@ def _woehler_oracle(case):
             got = call(signal, arg)
     except Exception as e:
         return (f"{what} raised {type(e).__name__}: {str(e)[:120]} ({lay}, {ne} curves)", "consumer-raises")
+    # the result is numeric: a float64 array / Series (not an object array holding 0-d arrays)
+    gd = got.dtype if isinstance(got, (pd.Series, np.ndarray)) else np.asarray(got).dtype
+    if gd != np.float64:
+        return (f"{what} of a curve {'with a name entry' if case.get('name_entry') else ''} returned dtype {gd} "
+                f"({[type(v).__name__ for v in np.asarray(got, dtype=object).ravel()[:3]]}), not float64 ({lay})", "consumer-dtype")
     # "neither operand is modified": the caller's curve data, the signal's own data, the argument
     for name, before, after in (("curve data passed in", wcobj0, wcobj), ("signal's own data", sig0, signal.to_pandas()),
                                 ("load / cycles argument", arg0, arg)):
@@ -1782,7 +1956,7 @@ def _woehler_oracle(case):
     return None
 
 
-CONSUMER_KINDS = ("woehler", "haigh", "haigh-five", "haigh-transform", "collective-raise", "matrix")
+CONSUMER_KINDS = ("woehler", "haigh", "haigh-five", "haigh-transform", "collective-raise", "matrix", "perf")
 
 
 # ------------------------------------------------------------------ the property module
@@ -1871,6 +2045,11 @@ class C13(Prop):
         "(1 / True / 1.0, 0 / False / 0.0) are ONE level, as for pandas' own look-up of a level by name; the result carries the "
         "parameter's spelling (observed on /repo HEAD; the oracle demands only that the level occurs exactly once, under either spelling).  Both readings are generated and are what the model says (fresh name per unnamed level; symbolic names)",
         "C13: a record's entry labels may repeat (they are fields, not keys): the record is positional in the model",
+        "C13: level dtypes are judged on the real code only (oracle, pandas 3): a level of one operand keeps that operand's dtype; "
+        "for a level both operands have the reference is the dtype pandas gives the two operand levels put together "
+        "(Index.append: two object levels of strings are `str` under pandas 3); integers become floats where a row has no value",
+        "C13: the performance guard (class broadcast-slow) is one timing comparison per run against a pandas cross join measured "
+        "in the same process, skipped when the two reference timings disagree; it is not a proof obligation",
         "C13: the model describes the code after the repairs committed in /repo (b3ce47d align-equal-values, 83030b7 outer join "
         "with NaN levels, 190635a one-level MultiIndex, bc2cb7f record entries with any label, c67dac2 operands untouched, 20f8491 "
         "level names that are not strings) and after the follow-up repairs, committed as well: 1eb3e33 (record frame built by position: "
@@ -1954,6 +2133,19 @@ class C13(Prop):
                     if layout(case) == "overlapping" and not shared_keys_present(case):
                         case["outside"] = True
                     yield case
+        yield {"kind": "perf", "n": 100000, "m": 100, "bound": 4.0}      # performance guard, one case per run
+        # a Woehler curve that carries a name beside the numbers: load / cycles of an array stay float64
+        for i, (lay, op) in enumerate((("record-array", "load"), ("record-array", "cycles"), ("record-series", "load"),
+                                       ("record-scalar", "load"), ("frame-array", "load"), ("disjoint", "load"))):
+            yield {"kind": "woehler", "layout": lay, "n_e": 2, "n_s": 3, "seed": 4000 + i, "k2": ("none", "value")[i % 2], "shuffle": False,
+                   "op": op, "pf": (0.5, 0.1)[i % 2], "scatter": ("none", "TN")[i % 2], "elem_name": "str", "name_entry": True}
+        # a Series object (record) that also carries a string entry, some numeric entries as 0-d arrays
+        for flags in ({"rec_str": True}, {"rec_str": True, "rec_0d": True}, {"rec_0d": True}):
+            for n in (2, 4):
+                for cells in ("frac", "i64"):
+                    for prm in ({"kind": "array", "vals": [4, 5, 6], "np": True}, {"kind": "array", "vals": [7], "np": False}, {"kind": "scalar", "v": 3}):
+                        yield dict({"obj": {"kind": "series", "names": [None], "keys": [[i] for i in range(n)], "ncols": 1},
+                                    "prm": dict(prm), "labels": {}, "rec_labels": "str", "cells": cells}, **flags)
         # a Series object with a DUPLICATED entry label against arrays / scalars
         for rl in ("str", "int"):
             for n in (2, 3):
@@ -2144,6 +2336,8 @@ class C13(Prop):
             if res is not None and res[1] == "haigh-callers-frame-modified" and self.known(res[1], res[0]):
                 return None
             return res
+        if case.get("kind") == "perf":
+            return perf_oracle(case, self.stats)
         if case.get("kind") == "matrix":
             k = f"matrix-{case['form']}-{'elem' if case['elem'] else 'noelem'}-{case['rows']}-{case['haigh']}"
             self.stats["consumer_cases"][k] = self.stats["consumer_cases"].get(k, 0) + 1
@@ -2306,6 +2500,14 @@ class C13(Prop):
                 return (f"result level names {list(o.index.names)} ({len(o)} rows) are not the operands' level names "
                         f"{[real_name(case, n) for n in case['obj']['names']]} and {[real_name(case, n) for n in case['prm']['names']]} ({layout(case)})",
                         klass_mis if shortcut else "level-names")
+        # every level has the dtype of the operand level it comes from
+        if case["prm"]["kind"] in ("series", "frame") and not is_record(case):
+            d = level_dtype_failure(case, r)
+            if d and not (d[1] == "level-dtype-object-with-missing-rows" and self.known(d[1], d[0])):
+                return (d[0] + f" ({layout(case)})", d[1])
+        d = record_entry_failure(case, r)
+        if d:
+            return (d, "record-entry-type")
         # a record comes back as a frame whose COLUMNS are the record's entries (labels, order, level names)
         if is_record(case) and isinstance(o, pd.DataFrame) and not record_dup_defect(case, r):
             if list(o.columns) != list(r.obj0.index) or list(o.columns.names) != list(r.obj0.index.names):
